@@ -276,11 +276,12 @@ pub mod shims {
         #[verifier::external_body]
         pub fn pool_authorization<F: Fn(&str, &str) -> Result<String, Error>, S: Fn(&Authorization) -> bool>(e: &mut Endpoint, d: &F, b: &S, u: &str, Tracked(w): Tracked<&mut World>) -> (r: Result<Authorization, HttpError>)
             requires forall|a: &Authorization| b.requires((a,))
-            ensures *final(w) == *old(w) { unimplemented!() }
+            ensures *final(w) == *old(w), r matches Ok(a) ==> b.ensures((&a,), true) { unimplemented!() }
         #[verifier::external_body]
         pub fn pool_order<F: Fn(&str, &str) -> Result<String, Error>, S: Fn(&Order) -> bool>(e: &mut Endpoint, d: &F, b: &S, u: &str, Tracked(w): Tracked<&mut World>) -> (r: Result<Order, HttpError>)
             requires forall|o: &Order| b.requires((o,))
-            ensures *final(w) == *old(w) { unimplemented!() }
+            // acme_proto/http.rs::pool_order (unit http): Ok only with an order on which the caller's predicate holds
+            ensures *final(w) == *old(w), r matches Ok(o) ==> b.ensures((&o,), true) { unimplemented!() }
         #[verifier::external_body]
         pub fn finalize_order<F: Fn(&str, &str) -> Result<String, Error>>(e: &mut Endpoint, d: &F, u: &str, Tracked(w): Tracked<&mut World>) -> (r: Result<Order, HttpError>)
             ensures *final(w) == *old(w) { unimplemented!() }
